@@ -467,6 +467,27 @@ Theorem C08_set_attr_annotation_irrelevant : forall tg tg' inj,
   setup_vars subclass tg inj = setup_vars subclass tg' inj.
 Proof. exact (set_attr_annotation_irrelevant subclass). Qed.
 
+(* ---------------------------------------------------------------------- *)
+(* Several components / autonomous modes may be instances of ONE class (same  *)
+(* k_cls, same annotations) whose instances differ in what they already have: *)
+(* every target is judged on its own.  C08_attr_exact, C08_untouched and       *)
+(* C08_untouched_preset already speak about each component's own [comp_has];   *)
+(* explicitly:                                                               *)
+(* ---------------------------------------------------------------------- *)
+
+(* the update written into a target is _setup_vars of THAT target -- its own
+   name, annotations and hasattr -- against the robot's complete injectables *)
+Theorem C08_each_target_on_its_own : forall r s, startup subclass r = Ok s ->
+  Forall2 (fun tg u => fst u = t_ref tg /\ setup_vars subclass tg (all_injectables r) = Ok (snd u))
+          (targets r) (st_updates s).
+Proof. exact (each_target_on_its_own subclass). Qed.
+
+(* and a target whose own _setup_vars fails stops start-up *)
+Theorem C08_target_failure_on_its_own : forall r tg e,
+  In tg (targets r) -> setup_vars subclass tg (all_injectables r) = Err e ->
+  exists e', startup subclass r = Err e'.
+Proof. exact (target_failure_on_its_own subclass). Qed.
+
 End C08.
 
 (* ====================================================================== *)
@@ -841,6 +862,55 @@ Proof.
   split; [|split]; [eexists; split; vm_compute; reflexivity|vm_compute; reflexivity|vm_compute; reflexivity].
 Qed.
 
+(* two arms of ONE class (class 25: `encoder: Sensor`, `gain: int`); the
+   simulated one sets self.encoder in __init__, the real one does not.  In
+   either declaration order the real arm gets the robot's encoder and the
+   simulated arm keeps its own; both get the gain.  The same for two autonomous
+   modes of one class. *)
+Definition o_sim_encoder := {| oid := 13; ocls := 10; otruthy := true |}.
+Definition k_arm (simulated : bool) : classdef :=
+  {| k_cls := 25; k_init_hints := []; k_hints := [("encoder", HType 10); ("gain", HType 1)];
+     k_preset := if simulated then [("encoder", PConst (Some o_sim_encoder))] else []; k_setup := true |}.
+Definition d_arm (id : nat) simulated := {| c_oid := id; c_truthy := true; c_class := k_arm simulated |}.
+Definition m_arm (nm : name) (simulated : bool) : modedef :=
+  {| m_name := nm; m_hints := [("encoder", HType 10); ("gain", HType 1)];
+     m_preset := if simulated then [("encoder", PConst (Some o_sim_encoder))] else []; m_setup := false |}.
+Definition arms_robot (with_encoder left_simulated : bool) : robot :=
+  {| r_dir := (if with_encoder then [ {| ra_name := "encoder"; ra_kind := KPlain; ra_value := Some o_gyro |} ] else [])
+              ++ [ {| ra_name := "gain"; ra_kind := KPlain; ra_value := Some o_zero |} ];
+     r_hints := [("left", RClass (d_arm 106 left_simulated)); ("right", RClass (d_arm 107 (negb left_simulated)))];
+     r_modes := [m_arm "ma" left_simulated; m_arm "mb" (negb left_simulated)] |}.
+Definition arm_update (simulated : bool) : list (name * obj) :=
+  if simulated then [("gain", o_zero)] else [("encoder", o_gyro); ("gain", o_zero)].
+Example C08_nv_same_class_instances_on_their_own : forall left_simulated,
+  exists s, startup ex_sub (arms_robot true left_simulated) = Ok s /\
+    st_updates s = [ (TComp "left", arm_update left_simulated); (TComp "right", arm_update (negb left_simulated));
+                     (TMode "ma", arm_update left_simulated); (TMode "mb", arm_update (negb left_simulated)) ] /\
+    let r := arms_robot true left_simulated in
+    let sim := if left_simulated then "left" else "right" in
+    let real := if left_simulated then "right" else "left" in
+    attr_at r (trace_of r s) (TComp sim) "encoder" = Is (Some o_sim_encoder) /\
+    attr_at r (before_first_setup (trace_of r s)) (TComp real) "encoder" = Is (Some o_gyro) /\
+    attr_at r (trace_of r s) (TComp real) "encoder" = Is (Some o_gyro) /\
+    attr_at r (trace_of r s) (TMode (if left_simulated then "ma" else "mb")) "encoder" = Is (Some o_sim_encoder) /\
+    attr_at r (trace_of r s) (TMode (if left_simulated then "mb" else "ma")) "encoder" = Is (Some o_gyro).
+Proof. intros [|]; eexists; repeat split; vm_compute; reflexivity. Qed.
+(* same class, same annotations, different requests *)
+Example C08_nv_same_class_different_requests :
+  k_cls (k_arm true) = k_cls (k_arm false) /\ k_hints (k_arm true) = k_hints (k_arm false) /\
+  requested (comp_has (d_arm 106 false)) (k_hints (k_arm false)) = [("encoder", HType 10); ("gain", HType 1)] /\
+  requested (comp_has (d_arm 107 true)) (k_hints (k_arm true)) = [("gain", HType 1)] /\
+  In (comp_target "right" (d_arm 107 true)) (targets (arms_robot true false)) /\
+  In (comp_target "left" (d_arm 106 false)) (targets (arms_robot false false)).
+Proof. repeat split; try reflexivity; vm_compute; tauto. Qed.
+(* without an encoder on the robot the real arm cannot be served: start-up
+   fails, whether the real arm is created first or second *)
+Example C08_nv_same_class_unserved_instance_fails :
+  startup ex_sub (arms_robot false false) = Err EInject /\ startup ex_sub (arms_robot false true) = Err EInject /\
+  setup_vars ex_sub (comp_target "right" (d_arm 107 false)) (all_injectables (arms_robot false true)) = Err EInject /\
+  setup_vars ex_sub (comp_target "left" (d_arm 106 true)) (all_injectables (arms_robot false true)) = Ok [("gain", o_zero)].
+Proof. repeat split; vm_compute; reflexivity. Qed.
+
 Print Assumptions C08_attr_exact.
 Print Assumptions C08_attr_exact_modes.
 Print Assumptions C08_injectables_are_attrs_and_all_components.
@@ -882,3 +952,5 @@ Print Assumptions C08_env_attr_exact.
 Print Assumptions C08_env_attr_exact_modes.
 Print Assumptions C08_set_attr_never_written.
 Print Assumptions C08_set_attr_annotation_irrelevant.
+Print Assumptions C08_each_target_on_its_own.
+Print Assumptions C08_target_failure_on_its_own.
